@@ -10,6 +10,9 @@ def run(prop):
         return engine_family.check(prop)
     if prop in ("C16",):
         return library_family.main(prop)
+    if prop == "C05":
+        import cases_family
+        return cases_family.c05()
     if prop == "C19":
         import cases_family
         return cases_family.c19()
